@@ -129,6 +129,18 @@ pub(crate) fn m_nth_parse() {
             Err(_) => {}
         }
     }
+    // the coefficients mean what they say: items hidden by li:nth-child(an+b) are those with an+b = index for some n >= 0
+    let html = "<ul><li>i1</li><li>i2</li><li>i3</li><li>i4</li><li>i5</li><li>i6</li><li>i7</li></ul>";
+    for (arg, a, b) in [("-2n+5", -2i64, 5i64), ("-3n+8", -3, 8), ("2n+1", 2, 1), ("-n+2", -1, 2), ("n+3", 1, 3), ("+3n-1", 3, -1), ("-1n+4", -1, 4), ("2n", 2, 0), ("3", 0, 3)] {
+        let css = format!("li:nth-child({}) {{ display: none; }}", arg);
+        let cfg = crate::config::plain().add_css(&css).expect("valid css");
+        let out = cfg.string_from_read(html.as_bytes(), 40).expect("renders");
+        for idx in 1..=7i64 {
+            let want_hidden = (0..=10i64).any(|n| a * n + b == idx);
+            let is_hidden = !out.contains(&format!("i{}", idx));
+            assert!(want_hidden == is_hidden, "li:nth-child({}): item {} hidden={} but should be {}: {:?}", arg, idx, is_hidden, want_hidden, out);
+        }
+    }
 }
 
 /// An at-rule containing the given character between spaces is skipped in finite time (public API).
